@@ -4,6 +4,7 @@ from __future__ import annotations
 import hashlib
 from pathlib import Path
 
+from . import c19b
 from . import common as C
 from . import gtfiles as GF
 from . import simdata as SD
@@ -447,7 +448,7 @@ def describe(case, obs):
 CHECK = Check(
     id="C19",
     title="CLI and Python entry points agree; list-in-file options equal repeated options",
-    theorems=["C19.samples_file_eq_repeated", "C19.ids_file_eq_repeated", "C19.both_is_usage_error", "C19.empty_is_none", "C19.unknown_ids_dropped"],
+    theorems=["C19.samples_file_eq_repeated", "C19.ids_file_eq_repeated", "C19.both_is_usage_error", "C19.empty_is_none", "C19.unknown_ids_dropped", "C19.file_holds_names", "C19.file_holds_names_other_line_ends", "C19.splitlines_cut_names_before_fix", "C19.samples_file_eq_repeated_end_to_end", "C19.every_spelling_parses_to_its_meaning", "C19.spellings_are_interchangeable"],
     sections=[
         Section(
             name="cli_vs_api",
@@ -461,9 +462,39 @@ CHECK = Check(
             nontrivial=lambda c, o: C.jdump(c),
             rule="every subcommand (transform, simphenotype, ld, index, clump, simgenotype, karyogram) through click's CliRunner and through its Python entry point on the same inputs: short and long spellings, --id vs --ids-file and --sample vs --samples-file (ID lists in non-alphabetical order, with unknown entries and duplicates), VCF / PGEN, ld with and without --from-gts and haplotype / variant targets, index with --sort / --no-sort incl. an input tabix refuses, karyogram with an absent sample, both forms of sample selection at once; outputs compared as parsed content (VCF) or text (.pheno, .ld, .hap, .clump, .bp), exit codes recorded; for transform, simphenotype and ld the entry point is wrapped while the command runs and every argument it receives (incl. random further options: --discard-missing, --maf, --chunk-size, --environment, --prevalence, --no-normalize) is compared with the parameters the options mean",
         ),
+        Section(
+            name="command_line_parse",
+            theorems=["C19.every_spelling_parses_to_its_meaning", "C19.spellings_are_interchangeable", "C19.both_is_usage_error", "C19.empty_is_none", "C19.samples_file_eq_repeated_end_to_end"],
+            gen=c19b.gen_parse,
+            impl=c19b.impl_parse,
+            model_req=c19b.model_req_parse,
+            model_obs=c19b.model_obs_parse,
+            equal=c19b.equal_parse,
+            oracle=c19b.oracle_parse,
+            describe=c19b.describe_parse,
+            variants=c19b.variants_parse,
+            setup=c19b.setup,
+            teardown=c19b.teardown,
+            nontrivial=lambda c, o: C.jdump([c["cmd"], c["items"], c["bad"]]),
+            rule="for each of the seven subcommands the option table is read off click's declarations in __main__.py on every run and handed to the Lean parser together with an argument vector: a random subset of the options in random order, every option in a randomly chosen spelling (short or long, --x or --no-x), repeatable options up to four times, single-valued ones sometimes twice (the last wins), values that look like options, positionals in between; plus malformed vectors (unknown or abbreviated option, a final option without its value, one positional too many / too few). Compared: the parameters click's parser produces (Command.make_context) and, for transform / simphenotype / ld, the samples and IDs the entry point receives (it is replaced by a recorder while the command runs; list files with CRLF, no final newline, duplicates, empty names and other separators inside names) with the model's; the model also evaluates `tableOK` (no spelling names two options) on the table",
+        ),
+        Section(
+            name="list_files",
+            theorems=["C19.file_holds_names", "C19.file_holds_names_other_line_ends", "C19.splitlines_cut_names_before_fix", "C19.ids_file_eq_repeated"],
+            gen=c19b.gen_lines,
+            impl=c19b.impl_lines,
+            model_req=c19b.model_req_lines,
+            model_obs=c19b.model_obs_lines,
+            oracle=c19b.oracle_lines,
+            describe=c19b.describe_lines,
+            setup=c19b.setup,
+            teardown=c19b.teardown,
+            nontrivial=lambda c, o: C.jdump(c),
+            rule="random texts over an alphabet of name pieces, blanks, \\n, \\r\\n, \\r and every other separator of str.splitlines (VT, FF, FS, GS, RS, U+0085, U+2028, U+2029) written byte for byte to a file that is given as --ids-file and -S to ld / transform / simphenotype; the names the entry point receives (ld: in order, with duplicates) compared with the model's `readLines`; the model of str.splitlines used for the pre-fix witness is compared with Python's on the same texts",
+        ),
     ],
-    trusted=["click's option parsing and exit-code policy (usage errors exit with 2, exceptions with 1)"],
+    trusted=["click's type conversion of option values, its handling of --opt=value and clustered short options (not modelled) and its exit-code policy (usage errors exit with 2, exceptions with 1)"],
     assumptions=[],
-    partial="click's parser is trusted; the equivalences are checked on generated option combinations",
+    partial="click's parser is modelled on the documented argument forms only (--opt value, -o value, flags, positionals); the output equivalences are checked on generated option combinations",
     anchors=[("haptools/__main__.py", ["transform", "simphenotype", "ld", "index", "clump", "simgenotype", "karyogram"]), ("haptools/index.py", ["index_haps"])],
 )
